@@ -58,7 +58,7 @@ class Quad:
         s.env = env; s.ck = env['ck']; s.x = []; s.d = d; golden = golden or env['golden']
         for i, (cfg, be) in enumerate(CONFIGS):
             di = os.path.join(d, 'c%d' % i); os.makedirs(di); shutil.copytree(os.path.join(golden[i], 'tokens'), os.path.join(di, 'tokens'))
-            p = env['paths'][cfg]; x = Exec(p['exe'], p['lib'], mkconf(di, be), s.ck, env=dict(SAN_ENV), stderr=f'{di}/stderr.log', trace=f'{di}/trace.jsonl'); x.timeout = 120; s.x.append(x)
+            s.x.append(s.spawn(i))
         s.ncalls = 0
     def call(self, fn, **kw):
         """the same logical call on all four; Pos arguments are translated per configuration (also inside mechanism parameters)"""
@@ -71,6 +71,13 @@ class Quad:
                 return v
             out.append(x.call(fn, **{k: tr(v) for k, v in kw.items()}))
         self.ncalls += 1; return out
+    def spawn(s, i):
+        cfg, be = CONFIGS[i]; di = os.path.join(s.d, 'c%d' % i); p = s.env['paths'][cfg]; n = len([f for f in os.listdir(di) if f.startswith('stderr')])
+        x = Exec(p['exe'], p['lib'], mkconf(di, be), s.ck, env=dict(SAN_ENV), stderr=f'{di}/stderr{n}.log', trace=f'{di}/trace{n}.jsonl'); x.timeout = 120; return x
+    def new_processes(s):
+        """end the four executors and start four new ones on the same token directories"""
+        for x in s.x: x.close()
+        s.x = [s.spawn(i) for i in range(4)]
     def kill(s):
         for x in s.x: x.kill()
 
@@ -357,7 +364,7 @@ class Prog(Prog):
         if f.endswith('-priv'): t = [('CKA_CLASS', 'CKO_PRIVATE_KEY'), ('CKA_KEY_TYPE', {'rsa': 'CKK_RSA', 'ec': 'CKK_EC', 'dsa': 'CKK_DSA', 'dh': 'CKK_DH', 'ed': 'CKK_EC_EDWARDS'}[f[:-5]]), ('CKA_TOKEN', False), ('CKA_SENSITIVE', False), ('CKA_EXTRACTABLE', True), ('CKA_SIGN', True)]
         else: t = s.SECRET_T + [('CKA_KEY_TYPE', {'aes': 'CKK_AES', 'generic': 'CKK_GENERIC_SECRET', 'des3': 'CKK_DES3'}[f])]
         for i in ((0,) if det else (0, 2)):
-            ru = s.step('C_UnwrapKey', what if not isp else f'pkcs8-decoding:{f}:blob-of-{NAMES[i].split("/")[0]}', s=s.S, mech=s.M(wm, p), ukey=uk['pos'], wrapped=blobs[i], tmpl=s.T(t + [('CKA_LABEL', b'unwrapped')]))
+            ru = s.step('C_UnwrapKey', what if not isp else f'pkcs8-decoding:{f}:blob-of-{NAMES[i].split("/")[0]}', s=s.S, mech=s.M(wm, p), ukey=uk['pos'], wrapped=blobs[i], tmpl=s.T(t + [('CKA_LABEL', b'unwrapped-%d' % len(s.objs))]))
             if ru[0]['rvname'] != 'CKR_OK':
                 if not det: s.note_cross('C_UnwrapKey', what, i, ru[0]['rvname'], {})
                 raise Disagree()
@@ -380,13 +387,13 @@ class Prog(Prog):
         else: base = s.gold(r.choice(['generic32', 'generic64', 'aes128'])); m = r.choice(['CKM_CONCATENATE_BASE_AND_DATA', 'CKM_CONCATENATE_DATA_AND_BASE']); p = {'kdstr': s.blob(r.choice([1, 16, 32, 0]))}; what = m
         if not s.has(m): return
         s.unit = f'derive {what} base={base["kind"]} type={kt} len={vl}'
-        rs = s.step('C_DeriveKey', what, s=s.S, mech=s.M(m, p), key=base['pos'], tmpl=s.T(t + [('CKA_LABEL', b'derived')]))
+        rs = s.step('C_DeriveKey', what, s=s.S, mech=s.M(m, p), key=base['pos'], tmpl=s.T(t + [('CKA_LABEL', b'derived-%d' % len(s.objs))]))
         if rs[0]['rvname'] == 'CKR_OK': o = s.add(rs, {'CKK_GENERIC_SECRET': 'generic32', 'CKK_AES': 'aes128', 'CKK_DES3': 'des3', 'CKK_DES2': 'des2'}[kt]); s.read_attrs(o['pos'], o['fam'], producer='C_DeriveKey')
     def u_keygen(s):
         r = s.rnd; c = r.randrange(5); skip = {'CKA_VALUE', 'CKA_CHECK_VALUE', 'CKA_EC_POINT', 'CKA_ID'}
         if c < 3:
             m, kind, extra = [('CKM_AES_KEY_GEN', 'aes128', [('CKA_VALUE_LEN', r.choice([16, 24, 32, 17, 0]))]), ('CKM_GENERIC_SECRET_KEY_GEN', 'generic32', [('CKA_VALUE_LEN', r.choice([1, 20, 64, 0]))]), ('CKM_DES3_KEY_GEN', 'des3', [])][c]
-            s.unit = f'keygen {m} {extra}'; rs = s.step('C_GenerateKey', m, s=s.S, mech=s.M(m), tmpl=s.T([('CKA_TOKEN', r.random() < 0.2), ('CKA_SENSITIVE', r.random() < 0.5), ('CKA_EXTRACTABLE', r.random() < 0.7), ('CKA_ENCRYPT', True), ('CKA_DECRYPT', True), ('CKA_SIGN', True), ('CKA_VERIFY', True), ('CKA_LABEL', b'generated')] + extra))
+            s.unit = f'keygen {m} {extra}'; rs = s.step('C_GenerateKey', m, s=s.S, mech=s.M(m), tmpl=s.T([('CKA_TOKEN', r.random() < 0.2), ('CKA_SENSITIVE', r.random() < 0.5), ('CKA_EXTRACTABLE', r.random() < 0.7), ('CKA_ENCRYPT', True), ('CKA_DECRYPT', True), ('CKA_SIGN', True), ('CKA_VERIFY', True), ('CKA_LABEL', b'generated-%d' % len(s.objs))] + extra))
             if rs[0]['rvname'] != 'CKR_OK': return
             o = s.add(rs, kind); o['random'] = True; s.read_attrs(o['pos'], o['fam'], [a for a in attrs_of(o['fam']) if a not in skip], producer='C_GenerateKey')   # a different random key per configuration: never an input of byte comparisons
         else:
@@ -662,8 +669,83 @@ class Prog(Prog):
                 add(f'wrap {wm} {tk}', f)
         return C
 
+def nested_shapes(ck):
+    """inner templates whose LAST (highest-numbered) entry is of each kind the stores encode differently"""
+    return [('last-entry-boolean', [('CKA_CLASS', ck.CKO_SECRET_KEY), ('CKA_EXTRACTABLE', True)]), ('last-entry-ulong', [('CKA_CLASS', ck.CKO_SECRET_KEY), ('CKA_KEY_TYPE', ck.CKK_AES)]),
+            ('last-entry-ulong-2', [('CKA_SENSITIVE', False), ('CKA_VALUE_LEN', 16)]), ('last-entry-byte-string', [('CKA_CLASS', ck.CKO_SECRET_KEY), ('CKA_KEY_TYPE', ck.CKK_GENERIC_SECRET), ('CKA_ID', b'inner-id')]),
+            ('single-byte-string', [('CKA_LABEL', b'inner-label')]), ('last-entry-empty-byte-string', [('CKA_CLASS', ck.CKO_SECRET_KEY), ('CKA_ID', b'')]),
+            ('last-entry-mechanism-set', [('CKA_CLASS', ck.CKO_SECRET_KEY), ('CKA_ALLOWED_MECHANISMS', [ck.CKM_AES_CBC, ck.CKM_AES_ECB])]), ('single-boolean', [('CKA_TOKEN', False)])]
+NESTED_ATTRS = {'secret': ['CKA_WRAP_TEMPLATE', 'CKA_UNWRAP_TEMPLATE', 'CKA_DERIVE_TEMPLATE'], 'public': ['CKA_WRAP_TEMPLATE'], 'private': ['CKA_UNWRAP_TEMPLATE']}
+class Prog(Prog):
+    def read_nested(s, o, producer):
+        """array attributes (CKA_WRAP_TEMPLATE ...) read with the three-step protocol and compared entry by entry"""
+        for a in o.get('nested', []):
+            rs = s.q.call('X_GetTemplateAttr', s=s.S, o=o['pos'], t=s.ck[a]); s.steps += 1; s.part.count('comparisons'); s.part.case(('nested', a))
+            labs = value_labels([json.dumps([r['rvname'], r.get('n'), sorted((e.get('t'), e.get('len'), e.get('data')) for e in r.get('attrs', []))]).encode().hex() for r in rs])
+            s.log.append(('X_GetTemplateAttr', a, [(r['rvname'], r.get('n')) for r in rs]))
+            if len(set(labs)) > 1:
+                cnt = ['%s/entries=%s' % (r['rvname'], r.get('n')) for r in rs]
+                s.note(producer, a + ':nested-template', cnt if len(set(cnt)) > 1 else labs, {'object': o['kind'], 'shape': o.get('shape'), 'read': [(r['rvname'], r.get('n'), r.get('attrs')) for r in rs]}); o['diverged'] = True
+    def create_nested(s, kind, attr, shape, inner, tok=True):
+        f = fam(kind); s.unit = f'create {kind} with {attr} {shape} token={tok}'
+        t = K.template(kind, label='nested-%d-%d' % (s.seed % 1000, len(s.objs)), token=tok, private=False, extra=[(attr, inner)])
+        rs = s.step('C_CreateObject', 'create:' + cls_of(f) + ':' + attr, s=s.S, tmpl=s.T(t))
+        if rs[0]['rvname'] != 'CKR_OK': return None
+        o = s.add(rs, kind); o['nested'] = [attr]; o['shape'] = shape; s.read_attrs(o['pos'], f, producer='C_CreateObject'); s.read_nested(o, 'C_CreateObject'); return o
+    def u_nested(s):
+        r = s.rnd; kind = r.choice(['aes128', 'aes256', 'generic32', 'des3', 'rsa1024:pub', 'rsa2048:priv', 'ec_p256:pub', 'ec_p256:priv']); shape, inner = r.choice(nested_shapes(s.ck))
+        o = s.create_nested(kind, r.choice(NESTED_ATTRS[cls_of(fam(kind))]), shape, inner, tok=r.random() < 0.75)
+        if o and o['fam'] == 'aes' and 'CKA_WRAP_TEMPLATE' in o['nested']: s.wrap_behaviour(o)
+    def wrap_behaviour(s, o):
+        """what the wrap template DOES: wrapping a key that does not match it must be refused alike"""
+        for tk in ('generic32', 'aes128'): s.step('C_WrapKey', 'CKM_AES_KEY_WRAP:key-with-wrap-template', s=s.S, mech=s.M('CKM_AES_KEY_WRAP'), wkey=o['pos'], key=s.gold(tk)['pos'], buf=512)
+    def u_restart(s, how=None):
+        """C_Finalize / C_Initialize (or four NEW processes) in the middle of the program: every token object must be found again under all
+        four configurations and read back the same; session objects are gone"""
+        how = how or s.rnd.choice(['C_Finalize+C_Initialize', 'new-process']); s.unit = 'restart: ' + how; q = s.q
+        cand = [o for o in s.objs if o['alive']]; keep = []
+        for o in cand:       # which objects are token objects, and under which label (read per configuration, not compared here)
+            vals = [x.getattrs(s.S.hs[i], o['pos'].hs[i], ['CKA_TOKEN', 'CKA_LABEL'])[1] for i, x in enumerate(q.x)]
+            if all(v.get('CKA_TOKEN') == b'\x01' for v in vals) and len({v.get('CKA_LABEL') for v in vals}) == 1: o['label'] = vals[0]['CKA_LABEL']; keep.append(o)
+            else: o['alive'] = False
+        labels = [o['label'] for o in keep]; keep = [o for o in keep if labels.count(o['label']) == 1]
+        s.step('C_Finalize', 'restart', must_ok=True)
+        if how == 'new-process': q.new_processes()
+        s.step('C_Initialize', 'restart', must_ok=True)
+        rs = s.step('C_OpenSession', 'restart', slot=Pos(s.slots), flags=6, must_ok=True); s.anchor = Pos([r['h'] for r in rs])
+        s.step('C_Login', 'restart', s=s.anchor, user=1, pin=USER_PIN.hex(), must_ok=True)
+        rs = s.step('C_OpenSession', 'restart', slot=Pos(s.slots), flags=6, must_ok=True); s.S = Pos([r['h'] for r in rs])
+        found = []
+        for i, x in enumerate(q.x):
+            m = {}
+            for h in x.findall(s.S.hs[i])[1]: m.setdefault(x.getattrs(s.S.hs[i], h, ['CKA_LABEL'])[1].get('CKA_LABEL'), []).append(h)
+            found.append(m)
+        s.part.count('comparisons'); cnt = len_labels([sum(len(v) for v in m.values()) for m in found])
+        if len(set(cnt)) > 1: s.note('C_FindObjects', 'objects-after-restart:count', cnt, {'counts': [sum(len(v) for v in m.values()) for m in found]})
+        for o in keep:
+            hs = [found[i].get(o['label'], [None])[0] for i in range(4)]; s.part.count('comparisons')
+            if any(h is None for h in hs):
+                s.note('C_FindObjects', 'object-after-restart', ['found' if h else 'lost' for h in hs], {'label': o['label'].decode('latin-1'), 'kind': o['kind']}); o['alive'] = False; continue
+            o['pos'].hs[:] = hs
+        for o in keep:
+            if not o['alive'] or o.get('diverged'): continue
+            names = [a for a in attrs_of(o['fam']) if not (o.get('random') and a in ('CKA_VALUE', 'CKA_CHECK_VALUE'))]
+            s.read_attrs(o['pos'], o['fam'], names, producer='restart'); s.read_nested(o, 'restart')
+            if o.get('nested') and o['fam'] == 'aes' and 'CKA_WRAP_TEMPLATE' in o['nested'] and o['alive'] and not o.get('diverged'): s.wrap_behaviour(o)
+        s.part.count('restarts')
+    def directed_nested_restart(s):
+        """deterministic: a token key per (class, template attribute, inner shape), then both kinds of restart with everything re-compared"""
+        for kind in ('aes128', 'rsa1024:pub', 'rsa1024:priv'):
+            for attr in NESTED_ATTRS[cls_of(fam(kind))]:
+                for shape, inner in nested_shapes(s.ck):
+                    try: s.create_nested(kind, attr, shape, inner, tok=True)
+                    except Disagree: pass
+        for how in ('C_Finalize+C_Initialize', 'new-process'):
+            try: s.u_restart(how)
+            except Disagree: return
+
 UNITS = [('u_create', 5), ('u_copy', 4), ('u_set', 4), ('u_destroy', 2), ('u_find', 3), ('u_getattr', 3), ('u_digest', 2), ('u_sym', 6), ('u_mac', 3), ('u_rsa_sign', 3), ('u_rsa_pss', 2), ('u_rsa_enc', 2),
-         ('u_ecdsa', 2), ('u_eddsa', 1.5), ('u_dsa', 1.5), ('u_wrap', 5), ('u_derive', 4), ('u_keygen', 1.5), ('u_random', 0.5)]
+         ('u_ecdsa', 2), ('u_eddsa', 1.5), ('u_dsa', 1.5), ('u_wrap', 5), ('u_derive', 4), ('u_keygen', 1.5), ('u_random', 0.5), ('u_nested', 2), ('u_restart', 1.2)]
 
 def build_golden(env, i, d, empty=False):
     cfg, be = CONFIGS[i]; p = env['paths'][cfg]; ck = env['ck']
@@ -679,13 +761,13 @@ def build_golden(env, i, d, empty=False):
     return info
 
 EMPTY_UNITS = [('e_find', 4), ('e_tokeninfo', 2), ('e_setpin', 1.5), ('e_relogin', 1.5), ('e_reinit', 1.5), ('e_create_destroy', 3)]
-def run_program(env, seed, part, sweep=None):
+def run_program(env, seed, part, sweep=None, directed=None):
     """one program on the four configurations.  Three shapes: ordinary (the fixed key set is already on the token), empty-start (a
     quarter of the programs: the token holds NOTHING at first - searches, token info, PIN operations, re-initialisation, create/destroy-all/search -
     then the key set is imported through the API and the program goes on as an ordinary one), and sweep=(lo, hi): cells lo..hi of the
     deterministic parameter-boundary sweep"""
-    rnd0 = random.Random(seed ^ 0x5eed); empty = sweep is None and rnd0.random() < 0.25
-    d = os.path.join(env['scratch'], 'p%d%s' % (seed, '-s%d' % sweep[0] if sweep else ''))
+    rnd0 = random.Random(seed ^ 0x5eed); empty = sweep is None and directed is None and rnd0.random() < 0.25
+    d = os.path.join(env['scratch'], 'p%d%s%s' % (seed, '-s%d' % sweep[0] if sweep else '', '-' + directed if directed else ''))
     for attempt in (0, 1):
         shutil.rmtree(d, ignore_errors=True); os.makedirs(d)
         try: q = Quad(env, d, golden=env['golden_empty'] if empty else env['golden']); break
@@ -727,7 +809,9 @@ def run_program(env, seed, part, sweep=None):
                 for h in hs[i]: bylabel[i][x.getattrs(P.anchor.hs[i], h, ['CKA_LABEL'])[1]['CKA_LABEL'].decode()] = h
             for kind in GOLDEN_KINDS: P.objs.append({'pos': Pos([bylabel[i].get(kind, 0) for i in range(4)]), 'kind': kind, 'fam': fam(kind), 'alive': True, 'golden': True})
             assert all(all(o['pos'].hs) for o in P.objs), 'golden objects missing'
-        if sweep:
+        if directed:
+            fresh_session(); getattr(P, 'directed_' + directed)(); q.call('C_CloseSession', s=P.S); part.count('directed_programs')
+        elif sweep:
             cells = P.sweep_cells()[sweep[0]:sweep[1]]
             for name, f in cells:
                 fresh_session(); P.unit = 'sweep: ' + name
@@ -744,7 +828,7 @@ def run_program(env, seed, part, sweep=None):
                 q.call('C_CloseSession', s=P.S); units += 1; part.count('units'); part.count('unit:' + u)
                 if P.steps == n0 and units > 400: break
         part.count('programs'); part.count('steps', P.steps)
-        if len(part.samples) < 2 and (empty or not part.samples): part.samples.append({'seed': seed, 'shape': 'empty-start' if empty else 'sweep %s' % (sweep,) if sweep else 'ordinary', 'steps': P.steps, 'history_head': [list(map(str, h)) for h in P.log[:16]]})
+        if len(part.samples) < 2 and (empty or not part.samples): part.samples.append({'seed': seed, 'shape': 'empty-start' if empty else 'sweep %s' % (sweep,) if sweep else directed or 'ordinary', 'steps': P.steps, 'history_head': [list(map(str, h)) for h in P.log[:16]]})
         for x in q.x:
             for cat, loc in x.ubsan_reports()[:10]: part.observe('side:ubsan ' + loc, cat[:100])
     except Died as e:
@@ -757,6 +841,7 @@ def worker(job):
     part = Part(); env = dict(job['env']); env['ck'] = CK(env['hdr']); env['scratch'] = os.path.join(env['scratch'], 'w%d' % os.getpid()); os.makedirs(env['scratch'], exist_ok=True)
     for seed in job.get('seeds', []): run_program(env, seed, part)
     for sw in job.get('sweeps', []): run_program(env, job['sweep_seed'], part, sweep=sw)
+    for dn in job.get('directed', []): run_program(env, job['sweep_seed'], part, directed=dn)
     return part
 
 def run(ctx):
@@ -782,6 +867,7 @@ def run(ctx):
     if ctx.replay: seeds = [json.load(open(ctx.replay))['witness']['seed']]
     jobs = [dict(env=env, seeds=seeds[i:i + 3]) for i in range(0, len(seeds), 3)]
     if not ctx.replay: jobs += [dict(env=env, sweep_seed=ctx.seed, sweeps=[(lo, min(lo + 12, ncells))]) for lo in range(0, ncells, 12)]
+    if not ctx.replay: jobs.append(dict(env=env, sweep_seed=ctx.seed, directed=['nested_restart']))
     random.Random(ctx.seed).shuffle(jobs)
     for part in pmap(worker, jobs, ctx.nproc): ctx.merge(part)
     d = {k[5:]: v for k, v in ctx.extra.items() if k.startswith('unit:')}
